@@ -1,8 +1,8 @@
 (* C16 - A backup restores to exactly the log as of the backup's version.
-   Statements only; proofs are `exact` lemmas of Fsm/Backup.v.
+   Statements only; proofs are `exact` lemmas of Fsm/Backup.v and Fsm/BackupConc.v.
    The restored node is a node whose durable state is the restored log, so what it proves and which version it
    assigns next are given by C01/C03/C05 for that log; these theorems say WHICH log that is. *)
-From QV Require Import Base.Util Fsm.Backup.
+From QV Require Import Base.Util Fsm.Backup Fsm.BackupConc.
 
 Section C16.
   Variable Ev : Type.
@@ -26,6 +26,35 @@ Section C16.
     b_restore (abs Ev s) id = option_map (fun evs => N.of_nat (length evs)) (e_restore Ev s id).
   Proof. exact (abs_restore Ev s id). Qed.
 End C16.
+
+(* C16b - a backup is ONE event of the machine above only because CreateBackup keeps insertions out from before it reads
+   the version until the copy of the store is finished (applyMu held shared across both).  Over the step machine of
+   Fsm/BackupConc.v - the apply goroutine (lock, compute in memory, persist, unlock), any number of queries and backups,
+   in ANY interleaving the lock permits: every backup holds exactly the log its recorded version names.  With the lock
+   released after the version is read, or not taken at all (the pinned commit), the statement is false. *)
+Section C16b.
+  Variable Ev : Type.
+  Theorem C16_backup_consistent_under_concurrent_insertions sched s s0 outs :
+    cinv Ev s -> crun Ev LockAll s sched = Some (s0, outs) ->
+    cinv Ev s0 /\ Forall (fun b => fst b = snd b) outs.
+  Proof. exact (backup_consistent Ev sched s s0 outs). Qed.
+  Theorem C16_initial_state_meets_the_invariant evs : cinv Ev (cinit Ev evs).
+  Proof. exact (cinv_init Ev evs). Qed.
+  Theorem C16_lock_released_before_the_copy_refuted (e : Ev) :
+    exists sched s0 outs, crun Ev LockRead (cinit Ev []) sched = Some (s0, outs) /\
+      Exists (fun b => length (snd b) = S (length (fst b))) outs.
+  Proof. exact (backup_lock_released_early_refuted Ev e). Qed.
+  Theorem C16_no_lock_refuted (e : Ev) :
+    exists sched s0 outs, crun Ev NoLock (cinit Ev []) sched = Some (s0, outs) /\
+      Exists (fun b => length (fst b) = S (length (snd b))) outs.
+  Proof. exact (backup_unlocked_refuted Ev e). Qed.
+End C16b.
+
+Example C16b_schedule_permitted :
+  exists s0, crun N LockAll (cinit N []) [AWLock N; ACompute N [1]; APersist N; AWUnlock N; QLock N; BLock N; BRead N; BCopy N; QUnlock N;
+                                          BUnlock N; AWLock N; ACompute N [2]; APersist N; AWUnlock N; BLock N; BRead N; BCopy N; BUnlock N]
+             = Some (s0, [([1], [1]); ([1; 2], [1; 2])]).
+Proof. exact (backup_schedule_permitted N 1 2). Qed.
 
 (* a backup of a log of v+1 events records v *)
 Theorem C16_records_version s : 0 < bs_events s -> bs_events s <= W64b ->
@@ -52,3 +81,7 @@ Print Assumptions C16_abstraction_step.
 Print Assumptions C16_abstraction_restore.
 Print Assumptions C16_records_version.
 Print Assumptions C16_delete_removes_only_named.
+Print Assumptions C16_backup_consistent_under_concurrent_insertions.
+Print Assumptions C16_initial_state_meets_the_invariant.
+Print Assumptions C16_lock_released_before_the_copy_refuted.
+Print Assumptions C16_no_lock_refuted.
